@@ -44,25 +44,49 @@ def specReportJ (r : Report) : Json :=
   obj [("kind", Json.str r.kind.name), ("file", strToJson r.file), ("lineno", optJ nat r.lineno),
        ("text", optJ strToJson r.line), ("msg", strToJson r.kind.message)]
 
-/-- the `\citation` events: [file, line number, text, keys] -/
+/-- the `\citation` events: [file, line number, text, keys, lower-cased keys] — two keys are "the
+same key up to case" when their lower-cased forms (`lowerPy`) are equal -/
 def citesJ (evs : List Spec.Event) : Json :=
   arr (evs.filterMap fun e =>
     match e.item with
-    | .citation keys => some (arr [strToJson e.file, nat e.lineno, strToJson e.text, strs keys])
+    | .citation keys =>
+      some (arr [strToJson e.file, nat e.lineno, strToJson e.text, strs keys, strs (keys.map lowerPy)])
     | _ => none)
 
-/-- `aux`: {files: [[name, [line…]]…], top: name} -/
+/-- what `Engine.make_bibliography` hands to `format_from_files` (reader suffix `.bib`, no explicit
+style), or what it raises -/
+def engineJ : Except Abort EngineArgs → Json
+  | .ok a =>
+    obj [("bib_filenames", strs a.bibFilenames), ("style", optJ strToJson a.style), ("citations", strs a.citations),
+         ("errors", Json.null), ("fatal", Json.null)]
+  | .error a =>
+    obj [("bib_filenames", Json.null), ("style", Json.null), ("citations", Json.null),
+         ("errors", arr (a.reports.map reportJ)), ("fatal", fatalJ a.fatal)]
+
+/-- `aux`: {files: [[name, [line…]]…], top: name}; with `"mode":"engine"` the reply also holds
+`engine` = the model of `Engine.make_bibliography` up to the call of `format_from_files`.
+Encodings, directories and the current directory live in the harness: the model sees the decoded
+lines of every file under the name by which `parse_file` / `\@input` refers to it. -/
 def aux (j : Json) : Except String Json := do
   let files ← parseFiles (← getArr j "files")
   let top ← getStr j "top"
   let fs := fsOf files
   let fuel := files.length + 1
   let evs := Spec.events fs fuel top
+  let um := Spec.eventsUntilMissing fs fuel top
+  let engine : Json :=
+    match j.getObjVal? "mode" with
+    | .ok (Json.str "engine") => engineJ (makeBibliographyArgs fs fuel top none ".bib".toList)
+    | _ => Json.null
   pure (obj [
     ("out", outJ (parse fs fuel top)),
+    ("engine", engine),
     ("spec", obj [
       ("closed", Json.bool (closedDepth fs fuel top)),
       ("acyclic", Json.bool (depthOk fs fuel top)),
+      ("missing", optJ strToJson um.2),
+      ("errors_until_missing", arr ((Spec.reports um.1).map specReportJ)),
+      ("cites_until_missing", citesJ um.1),
       ("citations", strs (Spec.citations evs)),
       ("style", optJ strToJson (Spec.style evs)),
       ("data", optJ strs (Spec.data evs)),
